@@ -732,10 +732,22 @@ impl<'de> de::Deserializer<'de> for Variable {
         visitor.visit_newtype_struct(self)
     }
 
+    /// Like serde_json, only a string names a field or a variant.
+    #[inline]
+    fn deserialize_identifier<V>(self, visitor: V) -> Result<V::Value, Error>
+    where
+        V: de::Visitor<'de>,
+    {
+        match self {
+            Variable::String(v) => visitor.visit_string(v),
+            other => Err(de::Error::invalid_type(other.unexpected(), &visitor)),
+        }
+    }
+
     forward_to_deserialize_any! {
         bool u8 u16 u32 u64 i8 i16 i32 i64 f32 f64 char str string
         unit seq bytes byte_buf map unit_struct tuple_struct struct
-        identifier tuple ignored_any
+        tuple ignored_any
     }
 }
 
